@@ -384,7 +384,7 @@ def run(tier):
             return None
         r['lin'][0] += 1
         return r
-    common.binding_selftest('c18', 'C18_Data', recs, _corrupt, cfg='C18_Data.cfg')
+    common.binding_selftest('c18', 'C18_Data', [r for r in recs if r['id'] not in rejects], _corrupt, cfg='C18_Data.cfg')
     rc = v.finish()
     n_all = sum(len(r['lin']) for r in recs)
     n_dy = sum(len(r['obs']) for r in recs)
